@@ -180,7 +180,7 @@ theorem config_subdir_leaves_lock (root : List String) :
 absolute `filepath.Join(rootDir, lockPath)`, removed at the relative `lockPath`, removal is guarded
 by `projectLocked`, and `fatal` skips the unlock on `projectLockedError`. -/
 theorem lock_path_obligation :
-    Dud.Facts.lockPathExpr = "filepath.Join(rootDir, lockPath)" ∧
+    Dud.Facts.lockPathExpr = "filepath.Join($param0, lockPath)" ∧
     Dud.Facts.unlockPathExpr = "lockPath" ∧ Dud.Facts.lockPath = ".dud/lock" ∧
     Dud.Facts.unlockGuarded = true ∧ Dud.Facts.fatalSkipsUnlockOnLocked = true ∧
     "os.Chdir" ∈ Dud.Facts.prepareCalls := by decide
